@@ -202,19 +202,19 @@ class Run:
                 elif who == "D0":
                     out.append("WW")
             elif k == "CONNBEGIN":
-                out.append("B" + W)
+                out.append("B" + (W or "?" + who))
             elif k == "CONNECT":
-                out.append({"ok": "o", "refused": "r", "interrupted": "i"}[f[2]] + W)
+                out.append({"ok": "o", "refused": "r", "interrupted": "i"}[f[2]] + (W or "?" + who))
             elif k == "POLL" and f[1] == "EINTR":
-                out.append("p" + W)
+                out.append("p" + (W or "?" + who))
             elif k == "FPUTS" and W is not None and f[1] == "err" and b"command timeout" in vlib.unhex(f[2]):
                 out.append("R" + W)
             elif k == "FPUTS" and who == "S0" and f[1] == "err" and b"to cancel pending threads" in vlib.unhex(f[2]):
                 out.append("MK")      # the second notice of a first ^C: last_intr is stamped right after it
             elif k == "RSIGNAL":
-                out.append(("G" + f[1][1:]) if who == "S0" else ("t" + W))
+                out.append(("G" + f[1][1:]) if who == "S0" else ("t" + (W or "?" + who)))
             elif k == "DESTROY":
-                out.append("d" + W)
+                out.append("d" + (W or "?" + who))
             elif k == "SIGNAL" and f[1] == "c0" and W is not None:
                 out.append("s" + W)
             elif k == "SLEPT" and who == "D0":
